@@ -58,6 +58,12 @@ impl UseMacro {
     }
 
     pub fn is(&self, attr: &syn::Attribute) -> bool { 
+        // `::interthread::actor`
+        if attr.path().leading_colon.is_some() {
+            let mut path = attr.path().clone();
+            path.leading_colon = None;
+            return self.mac_path.eq(&path);
+        }
         if let Some(imp_path) = &self.imp_path {
             if self.mac_path.eq( attr.path() ) || imp_path.eq( attr.path() ) {
                 return true;
